@@ -8,6 +8,8 @@ CONSTANTS
   Dev = {}
   Ops <- MCOpsCore
   InitConds <- MCInitEmpty
+  InitNold <- MCNold0
+  InitRanks <- MCRankId
 SYMMETRY Symm
 VIEW view
 CHECK_DEADLOCK FALSE
